@@ -667,6 +667,45 @@ fn iter_protocol<T: PartialEq, I: Iterator<Item = T>>(mk: impl Fn() -> I, items:
     if a.as_ref() != items.get(1) || b.as_ref() != items.get(3) {
         return 5;
     }
+    // partially consumed with next(), then drained by the fold-based consumers
+    for k in [1usize, 2, 3, n / 2] {
+        if k > n {
+            continue;
+        }
+        let mut it = mk();
+        for _ in 0..k {
+            it.next();
+        }
+        let mut rest: Vec<T> = Vec::new();
+        it.for_each(|x| rest.push(x));
+        if rest.len() != n - k || rest.iter().zip(items[k..].iter()).any(|(a, b)| a != b) {
+            return 8;
+        }
+        let mut it = mk();
+        for _ in 0..k {
+            it.next();
+        }
+        if it.count() != n - k {
+            return 9;
+        }
+        let mut it = mk();
+        for _ in 0..k {
+            it.next();
+        }
+        let l = it.last();
+        if k < n && l.as_ref() != items.last() {
+            return 10;
+        }
+    }
+    {
+        let folded: Vec<T> = mk().fold(Vec::new(), |mut v, x| {
+            v.push(x);
+            v
+        });
+        if folded.len() != n || folded.iter().zip(items.iter()).any(|(a, b)| a != b) {
+            return 11;
+        }
+    }
     for (sk, st) in [(0usize, 3usize), (1, 3), (2, 3), (1, 2), (n / 2, 1)] {
         let got: Vec<T> = mk().skip(sk).step_by(st).collect();
         let want: Vec<&T> = items.iter().skip(sk).step_by(st).collect();
@@ -1240,8 +1279,40 @@ where
             st.ct.clear();
             for _ in 0..8 {
                 let mut m: HashMap<Seq<A>, Amino> = HashMap::new();
-                for (cs, a) in &entries {
-                    let k: Seq<A> = cs.iter().map(|&c| sym::<A>(c)).collect();
+                for (i, (cs, a)) in entries.iter().enumerate() {
+                    let syms: Vec<A> = cs.iter().map(|&c| sym::<A>(c)).collect();
+                    // keys "however they were produced": collected, copied out of an offset window of a
+                    // longer sequence, or a longer sequence truncated (dead bits behind the key)
+                    let k: Seq<A> = match i % 3 {
+                        0 => syms.iter().copied().collect(),
+                        1 => {
+                            let mut big: Seq<A> = Seq::new();
+                            let junk = syms.last().copied().or_else(|| A::items().last());
+                            for _ in 0..3 {
+                                if let Some(j) = junk {
+                                    big.push(j);
+                                }
+                            }
+                            let off = big.len();
+                            big.extend(syms.iter().copied());
+                            for _ in 0..5 {
+                                if let Some(j) = junk {
+                                    big.push(j);
+                                }
+                            }
+                            big[off..off + syms.len()].to_owned()
+                        }
+                        _ => {
+                            let mut big: Seq<A> = syms.iter().copied().collect();
+                            for _ in 0..4 {
+                                if let Some(j) = A::items().last() {
+                                    big.push(j);
+                                }
+                            }
+                            big.truncate(syms.len());
+                            big
+                        }
+                    };
                     m.insert(k, Amino::try_from_bits(*a as u8).expect("amino code"));
                 }
                 st.ct.push(CodonTable::from_map(m));
